@@ -73,8 +73,15 @@ CallStep(st, op, a, srv, devS, devL) ==
            res |-> [haswire |-> TRUE, op |-> op, id |-> id, a |-> FullArgs(op, a, m), some |-> m.hasc,
                     ctrls |-> IF m.hasc THEN m.c ELSE <<>>, out |-> out, tmo |-> IF out = "timeout" THEN m.t ELSE 0]]
 
-(* a round = [ws, op, a, srv]: some With* calls, then the operation *)
-RoundStep(st, r, devS, devL) == CallStep([st EXCEPT !.mods = ApplyWiths(st.mods, r.ws)], r.op, r.a, r.srv, devS, devL)
+(* a round = [ws, op, a, srv, clone]: some With* calls on the handle, then the operation - on the handle itself, or
+   (clone = TRUE) on a clone of it made at that moment.  A clone is a new handle on the same connection: it shares the
+   message-ID allocator and nothing else, so the operation goes out without any modifier and the handle's own modifiers
+   stay pending for the next operation invoked on the handle *)
+OnClone(r) == "clone" \in DOMAIN r /\ r.clone
+RoundStep(st, r, devS, devL) ==
+  LET st1 == [st EXCEPT !.mods = ApplyWiths(st.mods, r.ws)] IN
+  IF OnClone(r) THEN [CallStep([st1 EXCEPT !.mods = NoMods], r.op, r.a, r.srv, devS, devL) EXCEPT !.mods = st1.mods]
+  ELSE CallStep(st1, r.op, r.a, r.srv, devS, devL)
 RECURSIVE RunRounds(_, _, _, _)
 RunRounds(st, rs, devS, devL) ==
   IF rs = <<>> THEN <<>>
@@ -109,7 +116,11 @@ Call(op, a, srv) == /\ ~closed
                     /\ Install(CallStep(Here, op, a, srv, SoptsSurviveNonSearch, ModsSurviveLocalError), pend, srv)
 (* the composition With* ; Call as one step (used by the generator to keep the state space small) *)
 Round(r) == /\ ~closed
-            /\ Install(RoundStep(Here, r, SoptsSurviveNonSearch, ModsSurviveLocalError), ApplyWiths(pend, r.ws), r.srv)
+            /\ LET n == RoundStep(Here, r, SoptsSurviveNonSearch, ModsSurviveLocalError) IN
+               IF OnClone(r)
+               THEN /\ mods' = n.mods /\ last' = n.last /\ closed' = n.closed /\ pend' = ApplyWiths(pend, r.ws)
+                    /\ lastcall' = [valid |-> TRUE, set |-> NoMods, srv |-> r.srv, res |-> n.res]      \* nothing was ever set on the clone
+               ELSE Install(n, ApplyWiths(pend, r.ws), r.srv)
 
 (* ------------------------------ the property ------------------------------ *)
 (* At every moment the modifiers in force are exactly those set since the previous call (in particular none right
